@@ -7,6 +7,7 @@ if [ -n "$VP_RUN_REPO" ]; then R=$VP_RUN_REPO; else R=/tmp/matrix_repo_$$; git -
 export VERIF_REPO=$R
 cd $HERE && ./check setup > /dev/null 2>&1 || { echo "setup failed"; exit 2; }
 for sd in $seeds; do
+  [ -n "$ONLY" ] && break
   echo "## unchanged tree, seed $sd"
   for c in C01 C02 C03 C04 C05 C06 C07 C08 C09 C10 C11 C12 C13 C14 C15 C16 C17 C18 C19 C20; do
     out=$(VERIF_SEED=$sd ./check $c 2>&1 | grep -E "VIOLATION|KNOWN-FINDING|Traceback" | cut -c1-160 | tail -1)
@@ -14,7 +15,8 @@ for sd in $seeds; do
   done
 done
 for d in $HERE/seeded/*/; do
-  n=$(basename $d); prop=$(python3 -c "import json;print(json.load(open('$d/meta.json'))['property'])")
+  n=$(basename $d); prop=$(python3 -c "import json;print(json.load(open('$d/meta.json'))['property'].split()[0])")
+  if [ -n "$ONLY" ] && ! echo " $ONLY " | grep -q " $n "; then continue; fi
   git -C $R checkout -q -- . ; git -C $R apply $d/patch.diff || { echo "$n: patch does not apply"; continue; }
   for sd in $seeds; do
     out=$(VERIF_SEED=$sd ./check $prop 2>&1 | grep -E "VIOLATION|Traceback" | sed 's/replay=.*replays\//replay=/' | cut -c1-120 | tail -1)
